@@ -274,6 +274,7 @@ package keeper
 //@ ensures [C09,C13,C19] instalment-and-matched-length-invariants-are-kept: err == nil && old(Inv() && InvVQ() && InvMatched()) ==> InvVQ() && InvMatched()
 //@ ensures [C10,C18] needs-an-existing-auction-and-a-non-empty-list: result == nil ==> len(allowedBidders) > 0 && Auction[auctionId].present
 //@ ensures [C05,C10] every-entry-valid-and-within-the-offer: result == nil ==> forall(j, int, 0 <= j && j < len(allowedBidders) ==> validAddr(allowedBidders[j].Bidder) && allowedBidders[j].MaxBidAmount > 0 && allowedBidders[j].MaxBidAmount <= Auction[auctionId].SellingCoin.Amount)
+//@ ensures [C05,C10,C18] the-first-entry-is-valid: result == nil ==> validAddr(allowedBidders[0].Bidder) && allowedBidders[0].MaxBidAmount > 0 && allowedBidders[0].MaxBidAmount <= Auction[auctionId].SellingCoin.Amount
 //@ ensures [C10,C19] entries-stored-under-the-auction-and-their-bidder: result == nil ==> forall(j, int, 0 <= j && j < len(allowedBidders) ==> AllowedBidder[auctionId][addrOf(allowedBidders[j].Bidder)].present)
 //@ ensures [C19,C10] other-auctions-allow-lists-untouched: forall(x, uint64, forall(ad, Addr, x != auctionId ==> AllowedBidder[x][ad] == old(AllowedBidder[x][ad])))
 //@ ensures [C10] nobody-is-removed: forall(x, uint64, forall(ad, Addr, old(AllowedBidder[x][ad]).present ==> AllowedBidder[x][ad].present))
